@@ -7,6 +7,7 @@
 import RpyModel.Codec
 import RpyModel.Dataflow
 import RpyModel.Online
+import RpyModel.Stages
 import RpyModel.Drv.Flow
 import RpyModel.Drv.C04
 open Lean Codec
@@ -127,5 +128,24 @@ def handleExplicitFit (j : Json) : Except String Json := do
   let ws := (List.range N).filterMap fun v => (fitted.getD v none).map fun raw =>
     (toString v, Json.arr (raw.map (arrJ)))
   pure (Json.mkObj [("W", Json.mkObj ws)])
+
+
+/-- the staging of `Model.fit` alone (`get_offline_subgraphs`): nodes in the model's order, parents, exits and
+    offline flags in; the stages (their node lists, in visiting order), the final bookkeeping and the
+    parents-first test of the order out -/
+def handleStages (j : Json) : Except String Json := do
+  let nodes ← (← arr (← field j "nodes")).toList.mapM nat
+  let parentsA ← (← arr (← field j "parents")).mapM fun pj => do (← arr pj).toList.mapM nat
+  let exits ← (← arr (← field j "exits")).toList.mapM nat
+  let offl ← (← arr (← field j "offline")).toList.mapM nat
+  let g : SG := { parents := fun v => parentsA.getD v [], isExit := fun v => exits.contains v,
+                  offline := fun v => offl.contains v }
+  let r := offlineStages g nodes
+  let stages : List (List Nat) := r.1
+  let s : PassSt := r.2
+  pure (Json.mkObj [("stages", Json.arr (stages.toArray.map natListJ)),
+                    ("trained", natListJ s.trained.reverse), ("included", natListJ s.included.reverse),
+                    ("topo", Json.bool (topoLB g [] nodes)),
+                    ("all_trained", Json.bool ((nodes.filter g.offline).all fun v => s.trained.contains v))])
 
 end Drv
